@@ -193,3 +193,22 @@ Theorem C17_probe_url : forall H cfg j l,
   /\ form ps "state" = probe_state.
 Proof. exact probe_url. Qed.
 Print Assumptions C17_probe_url.
+
+(* ---- the login request itself as input ---- *)
+
+(* Whatever query parameters the request that hits AuthURLHandler carries
+   (code_challenge, code_challenge_method, state, client_id, ... - a crafted login
+   link): the answer and the browser's jar afterwards are those of the plain login. *)
+Theorem C17_login_query_irrelevant : forall H cfg j s v lq,
+  respond H cfg j (OStartQ s v lq) = respond H cfg j (OStart s v)
+  /\ jar_after j (OStartQ s v lq) (respond H cfg j (OStartQ s v lq))
+     = jar_after j (OStart s v) (respond H cfg j (OStart s v)).
+Proof. exact login_query_irrelevant. Qed.
+Print Assumptions C17_login_query_irrelevant.
+
+(* Every parameter name occurs at most once in the authorization URL (whatever the
+   URLParamOpts are): the value C17_auth_url speaks about is THE value. *)
+Theorem C17_auth_url_single_valued : forall H cfg s v k,
+  exists cs ps, start_login H cfg s v = EvAuth cs (c_auth cfg) ps /\ count_key k ps <= 1.
+Proof. exact auth_url_single_valued. Qed.
+Print Assumptions C17_auth_url_single_valued.
